@@ -2,7 +2,7 @@ SPECIFICATION Spec
 CONSTANTS
   Keys <- WK
   Vals <- WV
-  MaxBatch = 4
+  MaxBatch = 3
   M1s <- M1All
   Variants = TRUE
   Prefix <- NoPrefix
